@@ -201,6 +201,20 @@ def run(ck):
 
     enf_module_sweep(ck, crate("rs", CB), re.compile(r"concordium_base::(aggregate_sig|ecvrf|ps_sig|eddsa_ed25519)::"), 1, "signature primitives")
 
+    # aggregation is the group operation, unconditionally: every return of Signature::aggregate passes through plus_point on both operands
+    # (a shortcut for "equal" or "neutral" operands makes the aggregate unfaithful to the signer multiset)
+    f = getfn(ck, "rs", CB, A + "Signature::<P>::aggregate")
+    if f:
+        pp = f.calls(r"::plus_point$")
+        rets = [bi for bi in f.reachable() if f.term(bi)["k"] == "return"]
+        bypass = sorted(set(rets) & f.reach_from([0], avoid={bi for (bi, _) in pp}))
+        o = f.origins(0, deep=True)
+        both = ("arg", 1) in o and ("arg", 2) in o
+        ck.ob("DOM", f.path, "aggregate-is-unconditional-point-addition", bool(pp) and not bypass and both,
+              "every return passes through plus_point of both operands" if (pp and not bypass and both) else
+              ("a return is reachable without adding the points: the aggregate of a repeated or neutral signature is not the sum" if bypass or not pp else "the result does not combine both operands"),
+              f.loc(bypass[0]) if bypass else f.loc())
+
     # ---- ed25519 dlog
     D = CB + "::eddsa_ed25519::dlog_ed25519::"
     v = getfn(ck, "rs", CB, D + "verify_dlog_ed25519")
